@@ -38,6 +38,10 @@ LEADING_ZERO_PAIRS = [
 ]
 
 
+# a secret scalar whose public key x-coordinate starts with a zero byte
+LZ_PUB = 0x50000000000000000000000000000000000000000000000000000000000002a8
+
+
 def search_shared(b, nz, start, limit=2 * 10 ** 6):
     """first a >= start with the x-coordinate of a*(b*G) below 2^(256 - 8 nz)"""
     B = ec_mul(b, G)
@@ -157,6 +161,7 @@ def generate(rng, tier, pre=None):
             A("ecies.decrypt", [kh(b ^ 1 if (b ^ 1) not in (0,) else 3), ap, ser.hex(), haspk])   # wrong recipient key
             A("ecies.decrypt", [kh(b), pub(KEYS[2]), ser.hex(), haspk])                 # wrong sender key
             A("ecies.decrypt", [kh(b), ap, ser.hex(), "1" if excl else "0"])            # wrong mode
+            A("ecies.decrypt", [ah, bp, ser.hex(), haspk])                               # roles swapped: the same ECDH point, must decrypt
             A("ecies.parse", [ser.hex(), haspk]); A("ecies.parse", [ser.hex(), "1" if excl else "0"])
         if not short:
             continue
@@ -175,7 +180,9 @@ def generate(rng, tier, pre=None):
             bits = set()
             for lo, hi in regions:
                 if hi > lo:
-                    bits.add(lo); bits.add(hi - 1); bits.add(rng.randrange(lo, hi))
+                    bits.add(rng.randrange(lo, hi))
+                    if si < 6:
+                        bits.add(lo); bits.add(hi - 1)
             if si % 5 == 0:
                 bits.update(range(0, 32, 5))
         else:
@@ -210,8 +217,9 @@ def generate(rng, tier, pre=None):
     # every length 0..600 with the right magic (and, with the key flag, a valid key where it fits): the length guard and the
     # three offsets, against the independent split of Spec/Bie1.v
     for n in range(0, 601):
-        A("ecies.parse", ["42494531+l:%d:%d" % (n + 7, n - 4) if n >= 4 else "42494531"[:2 * n], "0"])
-        if quick and n > 110 and n % 5 != 0:
+        if not (quick and n > 120 and n % 3 != 0):
+            A("ecies.parse", ["42494531+l:%d:%d" % (n + 7, n - 4) if n >= 4 else "42494531"[:2 * n], "0"])
+        if quick and n > 110 and n % 7 != 0:
             continue                      # with the key flag each case costs three point decompressions
         if n >= 37:
             A("ecies.parse", ["42494531" + pub(b0) + "+l:%d:%d" % (n + 9, n - 37), "1"])
@@ -234,10 +242,20 @@ def generate(rng, tier, pre=None):
         for excl in (0, 1):
             A("ecies.mem", [kh(a0), pub(b0), kh(b0), pub(a0, rng.random() < 0.5), kh(KEYS[2]), pub(KEYS[3]), msg_desc(rng, n), str(excl)])
 
+    # ECIES::derive_cipher_keys directly: both directions of a pair, uncompressed key, leading-zero pairs, a public key
+    # whose x-coordinate starts with 00 (LZ_PUB, found once by stepping from 0x5000..00), own key
+    for (d, q, comp) in [(a0, b0, True), (b0, a0, False), (a0, a0, True), (KEYS[3], KEYS[2], False), (LZ_PUB, a0, True), (a0, LZ_PUB, True)] \
+            + [(x, y, True) for (x, y) in LEADING_ZERO_PAIRS[:2]]:
+        A("ecies.keys", [kh(d), pub(q, comp)])
+    A("ecies.keys", [kh(a0), "00"]); A("ecies.keys", ["00" * 32, pub(b0)])
+    # the embedded sender key / the recipient key with a leading zero byte in x
+    A("ecies.pub", [kh(LZ_PUB), kh(b0), "1", msg_desc(rng, 10)]); A("ecies.pub", [kh(a0), kh(LZ_PUB), "0", msg_desc(rng, 10)])
+    A("ecies.self", [kh(LZ_PUB), "1", msg_desc(rng, 32)])
+
     # convenience methods and the random-key round trip
     for n in ([0, 16, 40] if quick else [0, 1, 15, 16, 17, 40, 300]):
         A("ecies.self", [kh(rng.choice(KEYS)), str(rng.randrange(2)), msg_desc(rng, n)])
-        A("ecies.pub", [kh(a0), pub(b0, rng.random() < 0.5), msg_desc(rng, n)])
+        A("ecies.pub", [kh(a0), kh(b0), str(rng.randrange(2)), msg_desc(rng, n)])
         A("ecies.ephemeral", [kh(rng.choice(KEYS)), msg_desc(rng, n)])
     return cases
 
